@@ -12,6 +12,7 @@ pub struct CallInfo {
     pub iters: Vec<String>, // enclosing fold iterators, outermost first
     pub args: Vec<Arg>,
     pub under_xor_right: bool,
+    pub multi: bool, // sits in the last instruction of a stream fold: runs once per generation, by design (docs/fold.md)
 }
 #[derive(Clone, Debug)]
 pub struct CanonInfo {
@@ -31,6 +32,9 @@ pub struct Analysis {
 }
 
 fn walk(n: &Node, iters: &mut Vec<String>, an: &mut Analysis, right: bool) {
+    walk2(n, iters, an, right, false)
+}
+fn walk2(n: &Node, iters: &mut Vec<String>, an: &mut Analysis, right: bool, multi: bool) {
     match n {
         Node::Call { peer, fname, args, out, .. } => {
             let out_stream = match out {
@@ -42,18 +46,18 @@ fn walk(n: &Node, iters: &mut Vec<String>, an: &mut Analysis, right: bool) {
             }
             an.calls.insert(
                 fname.clone(),
-                CallInfo { fname: fname.clone(), peer: peer.clone(), out: out.clone(), out_stream, iters: iters.clone(), args: args.clone(), under_xor_right: right },
+                CallInfo { fname: fname.clone(), peer: peer.clone(), out: out.clone(), out_stream, iters: iters.clone(), args: args.clone(), under_xor_right: right, multi },
             );
         }
         Node::Seq(l, r) | Node::Par(l, r) => {
-            walk(l, iters, an, right);
-            walk(r, iters, an, right);
+            walk2(l, iters, an, right, multi);
+            walk2(r, iters, an, right, multi);
         }
         Node::Xor(l, r) => {
-            walk(l, iters, an, right);
-            walk(r, iters, an, true);
+            walk2(l, iters, an, right, multi);
+            walk2(r, iters, an, true, multi);
         }
-        Node::Match { body, .. } | Node::Mismatch { body, .. } => walk(body, iters, an, right),
+        Node::Match { body, .. } | Node::Mismatch { body, .. } => walk2(body, iters, an, right, multi),
         Node::New { var, body } => {
             if var.starts_with('$') || var.starts_with('%') {
                 an.new_scoped.insert(var.clone());
@@ -61,7 +65,7 @@ fn walk(n: &Node, iters: &mut Vec<String>, an: &mut Analysis, right: bool) {
                     an.single_instance_streams.insert(var.clone());
                 }
             }
-            walk(body, iters, an, right);
+            walk2(body, iters, an, right, multi);
         }
         Node::Ap { dst, .. } => {
             if dst.starts_with('$') {
@@ -76,10 +80,11 @@ fn walk(n: &Node, iters: &mut Vec<String>, an: &mut Analysis, right: bool) {
         }
         Node::Fold { it, body, last, .. } => {
             iters.push(it.clone());
-            walk(body, iters, an, right);
+            walk2(body, iters, an, right, multi);
             iters.pop();
             if let Some(l) = last {
-                walk(l, iters, an, right);
+                let stream_fold = matches!(n, Node::Fold { iterable: Arg::Var { name, .. }, .. } if name.starts_with('$') || name.starts_with('%'));
+                walk2(l, iters, an, right, multi || stream_fold);
             }
         }
         _ => {}
